@@ -15,9 +15,25 @@ fn node_of(id: usize, nr: usize) -> Node {
 
 const BOUNDS: [i64; 9] = [-1, 0, 1, 2, 4, 5, 6, 8, 10];
 
+/// the same graph built by a different history of insert() calls (adjacency-list order is not part of the graph)
+fn shuffled_matrix(rows: &[Vec<usize>], nc: usize, salt: u64) -> SparseMatrix {
+    let mut entries: Vec<(usize, usize)> = rows.iter().enumerate().flat_map(|(r, cs)| cs.iter().map(move |&c| (r, c))).collect();
+    Rng::new(salt).shuffle(&mut entries);
+    let mut h = SparseMatrix::new(rows.len(), nc);
+    for (r, c) in entries { h.insert(r, c); }
+    h
+}
+
 fn graph_events(out: &mut Out, rows: &[Vec<usize>], nc: usize, roots: &[usize]) {
+    graph_events_order(out, rows, nc, roots, None);
+    // and once more with the entries inserted in a shuffled order
+    let salt = rows.iter().flatten().fold(nc as u64 + 17, |a, &c| a.wrapping_mul(31).wrapping_add(c as u64 + 1)) ^ (rows.len() as u64) << 40;
+    graph_events_order(out, rows, nc, roots, Some(salt));
+}
+
+fn graph_events_order(out: &mut Out, rows: &[Vec<usize>], nc: usize, roots: &[usize], shuffle: Option<u64>) {
     let nr = rows.len();
-    let h: SparseMatrix = sparse_from_rows(rows, nc);
+    let h: SparseMatrix = match shuffle { None => sparse_from_rows(rows, nc), Some(s) => shuffled_matrix(rows, nc, s) };
     out.new_case();
     let res = guarded(|| {
         BOUNDS
@@ -29,7 +45,7 @@ fn graph_events(out: &mut Out, rows: &[Vec<usize>], nc: usize, roots: &[usize]) 
             .collect::<Vec<_>>()
     });
     match res {
-        Ok(g) => out.ev("Girth", "ok", json!({"nr": nr, "nc": nc, "rows": rows, "g": g})),
+        Ok(g) => out.ev("Girth", "ok", json!({"nr": nr, "nc": nc, "rows": rows, "g": g, "shuffled": shuffle.is_some()})),
         Err(m) => out.ev("Girth", "panic", json!({"nr": nr, "nc": nc, "rows": rows, "msg": m})),
     }
     for &root in roots {
@@ -52,7 +68,7 @@ fn graph_events(out: &mut Out, rows: &[Vec<usize>], nc: usize, roots: &[usize]) 
             (rd, cd, lg)
         });
         match res {
-            Ok((rd, cd, lg)) => out.ev("Node", "ok", json!({"nr": nr, "nc": nc, "rows": rows, "root": root, "rd": rd, "cd": cd, "lg": lg})),
+            Ok((rd, cd, lg)) => out.ev("Node", "ok", json!({"nr": nr, "nc": nc, "rows": rows, "root": root, "rd": rd, "cd": cd, "lg": lg, "shuffled": shuffle.is_some()})),
             Err(m) => out.ev("Node", "panic", json!({"nr": nr, "nc": nc, "rows": rows, "root": root, "msg": m})),
         }
     }
@@ -178,7 +194,7 @@ pub fn generate(a: &Args) {
         all_graphs(&mut out, 2, 4, 1);
         all_graphs(&mut out, 3, 4, 11);
     }
-    let nrand = if is_thorough(a) { 3000 } else { 250 };
+    let nrand = if is_thorough(a) { 3000 } else { 400 };
     for i in 0..nrand {
         let (rows, nc) = random_graph(&mut rng, i);
         let nr = rows.len();
